@@ -373,12 +373,27 @@ Proof.
   - intros x I. apply RS in I. cbn [app concat]. exact I.
 Qed.
 
-Lemma G3_negdone st g : G3 (st, g) -> G3 (fst (neg_success st), gfold g (snd (neg_success st))).
+Lemma neg_success_ghost st :
+  exists ids, forall g, gfold g (snd (neg_success st)) = gset_subm g (g_subm g ++ ids).
 Proof.
-  intros H. unfold neg_success. destruct (neg_done st) eqn:Nd; [exact H|]. cbn [fst snd]. gn.
-  destruct H as (B3 & A16 & A10 & A11 & (Rg & S) & ND & RR & RS). cbn [fst snd] in *.
-  unfold G3, retained, smqg in *. cbn.
-  split; [intros _ X; discriminate X|split; [exact A16|split; [exact A10|split; [exact A11|split; [split; [exact Rg|exact S]|split; [exact ND|split; [exact RR|exact RS]]]]]]].
+  unfold neg_success. destruct (neg_done st).
+  - exists []. intros g. cbn. rewrite app_nil_r. destruct g; reflexivity.
+  - destruct (script_spec (on_connect (set_neg_done st true)) (set_neg_done st true)) as (q & r & n & ids & _ & G & _).
+    destruct (run_script (on_connect (set_neg_done st true)) (set_neg_done st true)) as [st2 o2]. cbn [fst snd] in *.
+    exists ids. intros g. rewrite gfold_cons. cbn [gout]. apply G.
+Qed.
+
+Lemma G3_subm st g x : G3 (st, g) -> G3 (st, gset_subm g x).
+Proof. intros H. eapply G3_view; [| |exact H]; reflexivity. Qed.
+
+Lemma G3_negdone st g : G3 (st, g) -> connected st = true -> G3 (fst (neg_success st), gfold g (snd (neg_success st))).
+Proof.
+  intros H C. destruct (neg_success_ghost st) as (ids & Eg). rewrite Eg. apply G3_subm.
+  destruct (neg_success_spec st C) as (news & _ & _ & _ & N4 & N5 & N6 & N7 & N8 & N9 & _).
+  destruct (neg_success st) as [st2 o2]. cbn [fst snd] in *.
+  destruct H as (B3 & A16 & A10 & A11 & (Rg & S) & ND & RR & RS).
+  unfold G3, retained, smqg in *. cbn [fst snd] in *. rewrite N4, N5, N6, N7, N8, N9.
+  split; [intros _ X; discriminate X|split; [intros _; apply A16, C|split; [exact A10|split; [exact A11|split; [split; [exact Rg|exact S]|split; [exact ND|split; [exact RR|exact RS]]]]]]].
 Qed.
 
 (* send_lib of a non-countable element, seen by G3 *)
@@ -464,7 +479,7 @@ Proof.
     cbn zeta in *. match goal with |- context[send_lib ?s ?o ?t] => destruct (send_lib s o t) as [st2 o2] end.
     cbn [fst snd] in *. gn. rewrite B in *. split; [|exact C3].
     apply G3_newsession; assumption.
-  - pose proof (G3_negdone st0 g H0) as A. split; [exact A|].
+  - pose proof (G3_negdone st0 g H0 C) as A. split; [exact A|].
     rewrite (proj1 (neg_success_frame st0)). exact C.
 Qed.
 
@@ -477,7 +492,7 @@ Qed.
 (* after the SM queue has been re-queued and the negotiation is complete *)
 Lemma G3_after_resend st l g' :
   (* st: state before resend, with smq st = l; g': ghost after the marks of the step *)
-  smq st = l ->
+  smq st = l -> connected st = true ->
   let st3 := fst (neg_success (fst (resend l st))) in
   0 <= sent_nr st < W32 ->
   (g_sync g' = false -> g_recv g' = [] /\ g_cur_done g' = []) ->
@@ -486,21 +501,22 @@ Lemma G3_after_resend st l g' :
   Forall (@NoDup Z) (g_old g') ->
   incl (g_done g') (g_recv g' ++ concat (g_old g')) ->
   h_sm st = false ->
-  G3 (st3, g').
+  G3 (st3, g') /\ connected st3 = true /\ h_sm st3 = false.
 Proof.
-  intros El. cbn zeta. intros Rg A10 A11 S ND RR Hs.
+  intros El C. cbn zeta. intros Rg A10 A11 S ND RR Hs.
   destruct (resend_frame l st) as (q & r1 & n & E & _).
   destruct (resend l st) as [st2 o2]. cbn [fst snd] in *.
   assert (M2 : smq st2 = []) by (rewrite E; cbn; rewrite El; destruct l; reflexivity).
   assert (Hs2 : h_sm st2 = false) by (rewrite E; exact Hs).
   assert (Sn2 : sent_nr st2 = sent_nr st) by (rewrite E; reflexivity).
-  unfold neg_success.
-  assert (X : forall s, smq s = [] -> h_sm s = false -> sent_nr s = sent_nr st -> neg_done s = true -> G3 (s, g')).
-  { intros s M Hh Sn Nd. unfold G3, retained, smqg. cbn [fst snd]. rewrite M, Hh, Sn, Nd. cbn [map length seqZ].
-    split; [intros _ X; discriminate X|split; [intros _ X; discriminate X|split; [exact A10|split; [exact A11|
-      split; [split; [exact Rg|]|split; [exact ND|split; [exact RR|intros x []]]]]]]].
-    intros Sy. destruct (S Sy) as (S1 & S2). rewrite app_nil_r. repeat split; assumption. }
-  destruct (neg_done st2) eqn:Nd; cbn [fst]; apply X; try assumption; reflexivity.
+  assert (C2 : connected st2 = true) by (rewrite E; exact C).
+  destruct (neg_success_spec st2 C2) as (news & _ & _ & _ & N4 & N5 & _ & N7 & N8 & N9 & _).
+  destruct (neg_success st2) as [st3 o3]. cbn [fst snd] in *.
+  split; [|split; [exact N8|rewrite N9; exact Hs2]].
+  unfold G3, retained, smqg. cbn [fst snd]. rewrite N4, M2, N9, Hs2, N5, Sn2, N7. cbn [map length seqZ].
+  split; [intros _ X; discriminate X|split; [intros _ X; discriminate X|split; [exact A10|split; [exact A11|
+    split; [split; [exact Rg|]|split; [exact ND|split; [exact RR|intros x []]]]]]]].
+  intros Sy. destruct (S Sy) as (S1 & S2). rewrite app_nil_r. repeat split; assumption.
 Qed.
 
 Lemma firstn_app_exact {A} (a b : list A) k : firstn (length a + k) (a ++ b) = a ++ firstn k b.
@@ -524,15 +540,15 @@ Qed.
 (* the ghost and the state after <failed/> has been processed *)
 Lemma G3_failed_final st g s5 kept rel :
   G3 (st, g) -> NoDup (g_recv g) -> smq st = rel ++ kept -> connected st = true ->
-  connected s5 = true -> (neg_done s5 = neg_done st \/ neg_done s5 = true) -> h_sm s5 = false ->
-  sqc s5 = sqc st -> smq s5 = kept -> sent_nr s5 = 0 ->
+  connected s5 = true -> ((neg_done s5 = neg_done st /\ sqc s5 = sqc st) \/ neg_done s5 = true) -> h_sm s5 = false ->
+  smq s5 = kept -> sent_nr s5 = 0 ->
   G3 (s5, gapply (gapply (gapply g (GRelease (map s_gid rel))) GFailed) GSmOff).
 Proof.
-  intros (B3 & A16 & A10 & (pre & A11) & (Rg & S) & ND & RR & RS) NDr Sp C C5 Nd5 Hs5 Q5 M5 S5. cbn [fst snd] in *.
+  intros (B3 & A16 & A10 & (pre & A11) & (Rg & S) & ND & RR & RS) NDr Sp C C5 Nd5 Hs5 M5 S5. cbn [fst snd] in *.
   unfold G3, retained, smqg in *.
   cbn [fst snd gapply g_sync g_recv g_cur_done g_done g_old gset_active gset_in gset_sync gset_cur_done gset_recv gset_old gset_done].
-  rewrite C5, Hs5, Q5, M5, S5.
-  split; [intros _ X; destruct Nd5 as [Y|Y]; [rewrite Y in X; apply B3; assumption|congruence]|].
+  rewrite C5, Hs5, M5, S5.
+  split; [intros _ X; destruct Nd5 as [[Y Q5]|Y]; [rewrite Y in X; rewrite Q5; apply B3; assumption|congruence]|].
   split; [intros _ X; discriminate X|].
   split; [intros _; split; reflexivity|].
   split; [exists (g_done g ++ map s_gid rel); rewrite app_nil_r; reflexivity|].
@@ -560,28 +576,30 @@ Proof.
   set (st2 := reset_sm_state s2).
   assert (C3 : connected st2 = true) by exact C2.
   assert (Fr : exists s4 o4, (if bind_saved s2 then do_bind bt st2 else if resuming then xmpp_disconnect st2 else neg_success st2) = (s4, o4) /\
-                 (forall g', gfold g' o4 = g') /\ connected s4 = true /\ (neg_done s4 = neg_done st \/ neg_done s4 = true) /\
-                 h_sm s4 = false /\ sqc s4 = sqc st /\ smq s4 = kept /\ sent_nr s4 = 0).
+                 (forall g', gview3 (gfold g' o4) = gview3 g') /\ connected s4 = true /\
+                 ((neg_done s4 = neg_done st /\ sqc s4 = sqc st) \/ neg_done s4 = true) /\
+                 h_sm s4 = false /\ smq s4 = kept /\ sent_nr s4 = 0).
   { destruct (bind_saved s2); [|destruct resuming].
     - unfold do_bind.
       destruct (send_lib_frame (set_h_bind st2 true) OLib bt C3) as (B & C4 & Nd4 & Hs4 & Q4 & M4 & S4).
       { unfold st2. cbn. rewrite En2. reflexivity. }
       cbn zeta in *. destruct (send_lib (set_h_bind st2 true) OLib bt) as [s4 o4]. cbn [fst snd] in *.
-      exists s4, o4. split; [reflexivity|]. split; [exact B|split; [exact C4|split; [left; rewrite Nd4; exact Nd2|
-        split; [rewrite Hs4; exact Hs2|split; [rewrite Q4; exact Q2|split; [rewrite M4; exact M2|rewrite S4; reflexivity]]]]]].
+      exists s4, o4. split; [reflexivity|]. split; [intros g'; rewrite B; reflexivity|split; [exact C4|split; [left; split; [rewrite Nd4; exact Nd2|rewrite Q4; exact Q2]|
+        split; [rewrite Hs4; exact Hs2|split; [rewrite M4; exact M2|rewrite S4; reflexivity]]]]].
     - unfold xmpp_disconnect.
       destruct (send_lib_frame st2 OSm END_TEXT C3 eq_refl) as (B & C4 & Nd4 & Hs4 & Q4 & M4 & S4).
       cbn zeta in *. destruct (send_lib st2 OSm END_TEXT) as [s4 o4]. cbn [fst snd] in *.
-      exists s4, o4. split; [reflexivity|]. split; [exact B|split; [exact C4|split; [left; rewrite Nd4; exact Nd2|
-        split; [rewrite Hs4; exact Hs2|split; [rewrite Q4; exact Q2|split; [rewrite M4; exact M2|rewrite S4; reflexivity]]]]]].
-    - unfold neg_success. destruct (neg_done st2) eqn:Nd; eexists _, _; (split; [reflexivity|]);
-        (split; [intros g'; reflexivity|]); cbn [connected neg_done h_sm smq sent_nr set_neg_done]; unfold sqc, sq_countable; cbn [sq set_neg_done];
-        (split; [exact C2|split; [|split; [exact Hs2|split; [exact Q2|split; [exact M2|reflexivity]]]]]).
-      + right. exact Nd.
-      + right. reflexivity. }
-  destruct Fr as (s4 & o4 & Ex & B & C4 & Nd4 & Hs4 & Q4 & M4 & S4). rewrite Ex. cbn [fst snd].
-  gn. rewrite B. split; [|split; [exact C4|exact Hs4]].
-  apply (G3_failed_final st g (set_sm_enabled s4 false) kept rel H NDr Sp C); assumption.
+      exists s4, o4. split; [reflexivity|]. split; [intros g'; rewrite B; reflexivity|split; [exact C4|split; [left; split; [rewrite Nd4; exact Nd2|rewrite Q4; exact Q2]|
+        split; [rewrite Hs4; exact Hs2|split; [rewrite M4; exact M2|rewrite S4; reflexivity]]]]].
+    - destruct (neg_success_ghost st2) as (ids & Eg).
+      destruct (neg_success_spec st2 C3) as (news & _ & _ & _ & N4 & N5 & _ & N7 & N8 & N9 & _).
+      destruct (neg_success st2) as [s4 o4]. cbn [fst snd] in *.
+      exists s4, o4. split; [reflexivity|]. split; [intros g'; rewrite Eg; reflexivity|].
+      split; [exact N8|split; [right; exact N7|split; [rewrite N9; exact Hs2|split; [rewrite N4; exact M2|rewrite N5; reflexivity]]]]. }
+  destruct Fr as (s4 & o4 & Ex & B & C4 & Nd4 & Hs4 & M4 & S4). rewrite Ex. cbn [fst snd].
+  gn. split; [|split; [exact C4|exact Hs4]].
+  eapply G3_view; [reflexivity| |apply (G3_failed_final st g (set_sm_enabled s4 false) kept rel H NDr Sp C); assumption].
+  rewrite (gview3_quiet _ GSmOff I), (gview3_quiet _ GSmOff I). symmetry. apply B.
 Qed.
 
 Lemma G3_handle_sm bt st g el :
@@ -616,19 +634,14 @@ Proof.
     + assert (VV : smq st2 = smq st /\ sent_nr st2 = sent_nr st /\ h_sm st2 = false /\ connected st2 = true).
       { destruct ra; [destruct id; [|discriminate Ea]|]; inversion Ea; repeat split; assumption. }
       destruct VV as (V1 & V2 & V3 & V4).
-      pose proof (G3_after_resend st2 (smq st2) (gapply (gapply g GEnabledSeen) GEnabled) eq_refl) as R. cbn zeta in R.
-      assert (Cc : connected (fst (neg_success (fst (resend (smq st2) st2)))) = true /\
-                   h_sm (fst (neg_success (fst (resend (smq st2) st2)))) = false).
-      { destruct (resend_frame (smq st2) st2) as (q & r1 & n & E & _).
-        destruct (resend (smq st2) st2) as [sx ox]. cbn [fst snd] in *. unfold neg_success.
-        destruct (neg_done sx); cbn [fst]; rewrite E; cbn; split; assumption. }
+      pose proof (G3_after_resend st2 (smq st2) (gapply (gapply g GEnabledSeen) GEnabled) eq_refl V4) as R. cbn zeta in R.
       destruct (resend (smq st2) st2) as [st3 o3] eqn:Er. cbn [fst snd] in *.
       pose proof (resend_frame (smq st2) st2) as Fr. rewrite Er in Fr. destruct Fr as (_ & _ & _ & _ & Sil). cbn [snd] in Sil.
-      destruct (neg_success st3) as [st4 o4] eqn:En4. cbn [fst snd] in *.
-      gn. rewrite (gfold_silent _ o3 Sil).
-      assert (Eo4 : forall g0, gfold g0 o4 = g0).
-      { unfold neg_success in En4. destruct (neg_done st3); inversion En4; reflexivity. }
-      rewrite Eo4. split; [|exact Cc].
+      destruct (neg_success_ghost st3) as (ids & Eo4).
+      destruct (neg_success st3) as [st4 o4]. cbn [fst snd] in *.
+      gn. rewrite (gfold_silent _ o3 Sil). rewrite Eo4.
+      cut (G3 (st4, gapply (gapply g GEnabledSeen) GEnabled) /\ connected st4 = true /\ h_sm st4 = false);
+        [intros (R1 & R2 & R3); split; [apply G3_subm, R1|split; assumption]|].
       apply R; cbn [gapply g_sync g_recv g_cur_done g_done g_old gset_sync gset_in].
       * rewrite V2. exact Rg.
       * intros X. discriminate X.
@@ -665,19 +678,14 @@ Proof.
     assert (Hk : (k <= length (smq st))%nat) by (unfold k, zlen in *; lia).
     set (kept := skipn k (smq st)). set (rel := firstn k (smq st)).
     set (g1 := gapply (gapply g (GResumed hv)) (GRelease (map s_gid rel))).
-    pose proof (G3_after_resend (set_smq st1 kept) kept g1 eq_refl) as R. cbn zeta in R.
-    assert (Cc : connected (fst (neg_success (fst (resend kept (set_smq st1 kept))))) = true /\
-                 h_sm (fst (neg_success (fst (resend kept (set_smq st1 kept))))) = false).
-    { destruct (resend_frame kept (set_smq st1 kept)) as (q & r1 & n & E & _).
-      destruct (resend kept (set_smq st1 kept)) as [sx ox]. cbn [fst snd] in *. unfold neg_success.
-      destruct (neg_done sx); cbn [fst]; rewrite E; cbn; split; (exact C || reflexivity). }
+    pose proof (G3_after_resend (set_smq st1 kept) kept g1 eq_refl C) as R. cbn zeta in R.
     destruct (resend kept (set_smq st1 kept)) as [st3 o3] eqn:Er. cbn [fst snd] in *.
     pose proof (resend_frame kept (set_smq st1 kept)) as Fr. rewrite Er in Fr. destruct Fr as (_ & _ & _ & _ & Sil). cbn [snd] in Sil.
-    destruct (neg_success st3) as [st4 o4] eqn:En4. cbn [fst snd] in *.
-    gn. rewrite (gfold_silent _ o3 Sil).
-    assert (Eo4 : forall g0, gfold g0 o4 = g0).
-    { unfold neg_success in En4. destruct (neg_done st3); inversion En4; reflexivity. }
-    rewrite Eo4. split; [|exact Cc]. fold g1.
+    destruct (neg_success_ghost st3) as (ids & Eo4).
+    destruct (neg_success st3) as [st4 o4]. cbn [fst snd] in *.
+    gn. rewrite (gfold_silent _ o3 Sil). rewrite Eo4. fold g1.
+    cut (G3 (st4, g1) /\ connected st4 = true /\ h_sm st4 = false);
+      [intros (R1 & R2 & R3); split; [apply G3_subm, R1|split; assumption]|].
     assert (Fn : firstn (Z.to_nat hv) (g_recv g) = g_cur_done g ++ map s_gid rel).
     { rewrite S1. replace (Z.to_nat hv) with (length (g_cur_done g) + k)%nat by (unfold k, zlen in *; lia).
       rewrite firstn_app_exact. unfold rel. rewrite firstn_map. reflexivity. }
@@ -753,7 +761,7 @@ Definition G123 (s : sys) : Prop := G1b s /\ flags2 s /\ G3 s.
 Lemma G3_step bt s a : G123 s -> honest s a -> G3 (sys_step bt s a).
 Proof.
   destruct s as [st g]. intros (G1 & F & H) Hon.
-  destruct a as [t|sched|it| | |].
+  destruct a as [t|sched|it| | | |l0].
   - apply G3_send, H.
   - unfold sys_step, step. cbn [fst snd]. unfold write_phase. destruct (connected st) eqn:C; [|exact H].
     pose proof (G3_wloop st g sched F H C) as W. cbn zeta in W.
@@ -779,6 +787,7 @@ Proof.
     destruct (disconnect st) as [st2 o2]. exact H2.
   - unfold sys_step, step. cbn [fst snd]. pose proof (G3_connect _ _ H) as H2.
     destruct (do_connect st) as [st2 o2]. exact H2.
+  - unfold sys_step, step. cbn [fst snd]. eapply G3_view; [| |exact H]; reflexivity.
 Qed.
 
 Lemma G3_init : G3 sys0.
@@ -827,5 +836,16 @@ Proof.
   exists [AConnect; AIn (IFeatures true); AWrite []; AIn IBindResult; AWrite [];
           AIn (ISm (SmEnabled true (Some [65]))); ASend [120]; ASend [121]; AWrite []; ALoss;
           AConnect; AIn (IFeatures true); AWrite []; AIn (ISm (SmResumed (Some [65]) (Some 1)))].
+  vm_compute. repeat split; try reflexivity; intros X; discriminate X.
+Qed.
+
+(* ... and one in which the connection handler submits a stanza on every CONNECT: after <resumed h=2> the re-queued
+   stanza (ghost id 6) is ahead of the handler's new one (ghost id 9) *)
+Example honest_history_with_connect_handler :
+  exists l, all_honest [] sys0 l /\ sqc (fst (sys_run [] sys0 l)) = [6; 9].
+Proof.
+  exists [AOnConnect [[119]]; AConnect; AIn (IFeatures true); AWrite []; AIn IBindResult; AWrite [];
+          AIn (ISm (SmEnabled true (Some [65]))); ASend [120]; ASend [121]; AWrite []; ALoss; AOnConnect [[122]];
+          AConnect; AIn (IFeatures true); AWrite []; AIn (ISm (SmResumed (Some [65]) (Some 2)))].
   vm_compute. repeat split; try reflexivity; intros X; discriminate X.
 Qed.
